@@ -15,12 +15,12 @@ NA = {
 # id -> (level, text, note, technique, design_ref, built)
 CHECKS = {
  "C03": ("exploration",
-         "Seeded search + a small complete enumeration: reference encodings of generated values hit by 1..3 storage faults (bit flip, byte set, truncate, extend, duplicate, splice; 70% aimed at tags, counts, compacts, UTF-8 bodies, variant indices, nanos, non-zero fields, bit lengths, padding via the reference encoder's annotation map), valid(+suffix) and random strings, delivered through a drawn benign source stack; the real decoder's accept/reject, value and consumed length are compared with an independent reference SCALE decoder; overflow checks and debug assertions on; process survival (abort, stack overflow, allocation cap, hang) observed by the supervising driver; every byte string of length <= 2 (3 for small-alphabet subjects in thorough) for every subject is enumerated completely. Sampling beyond that.",
+         "Seeded search + a small complete enumeration: reference encodings of generated values hit by 1..3 storage faults (bit flip, byte set, truncate, extend, duplicate, splice; 70% aimed at tags, counts, compacts, UTF-8 bodies, variant indices, nanos, non-zero fields, bit lengths, padding via the reference encoder's annotation map), valid(+suffix) and random strings, delivered through a drawn benign source stack; the real decoder's accept/reject, value and consumed length are compared with an independent reference SCALE decoder; overflow checks and debug assertions on; process survival (abort, stack overflow, allocation cap, hang) observed by the supervising driver; every byte string of length <= 2 (3 for small-alphabet subjects in thorough) for every subject is enumerated completely; bit sequences are decoded from an endless source at bit counts around the 2^29-1 cap; large in-place shapes (Box/Rc/Arc of arrays of 300 KB arrays, boxed transparent newtypes) are decoded on a 256 KiB stack. Sampling beyond that.",
          "Trusted: the reference model (model.rs) as the statement of the SCALE language, incl. its documented laxities (padding bits ignored, duplicate map keys last-wins); recursive types decoded on a 1 GiB stack with inputs <= 64 KiB (unlimited-depth stack exhaustion is C11's subject). Collections of zero-sized-encoding elements with hostile counts are a KNOWN-FINDING family (memory exhaustion), executed in supervised child processes.",
          "deterministic simulation: storage-fault injection on the wire (seeded, annotation-aimed) + differential oracle against a reference decoder + supervised workers for crash/abort/hang detection; complete enumeration of short strings",
          "DESIGN.md section 4 C03", True),
  "C07": ("exploration",
-         "Seeded search: every generated value is encoded through all sinks (encode, encode_to Vec with existing content, custom Output with/without push_byte, &mut dyn Output, io::Write with short writes and EINTR under three schedules, Cursor, small BufWriter, using_encoded) and encoded_size; all must agree byte for byte. Bulk subjects (12 primitive element types x Vec/VecDeque/array) are compared with element-wise twin types for encoding and for decoding of the full and a truncated encoding through the same benign source (values, consumed bytes, Ok/Err).",
+         "Seeded search: every generated value is encoded through all sinks (encode, encode_to Vec with existing content, custom Output with/without push_byte, &mut dyn Output, io::Write with short writes and EINTR under three schedules, Cursor, small BufWriter, using_encoded, KeyedVec::to_keyed_vec, Joiner::and) and encoded_size; all must agree byte for byte and the agreed encoding must decode back to the value; values in #[codec(skip)] variants are exercised by a typed helper. Bulk subjects (12 primitive element types x Vec/VecDeque/array) are compared with element-wise twin types for encoding and for decoding of the full and a truncated encoding through the same benign source (values, consumed bytes, Ok/Err).",
          "Trusted: SimWrite never returns Ok(0) or a hard error (the library documents sinks as infallible). Twin types are derived newtypes (TYPE_INFO = Unknown).",
          "deterministic simulation: simulated sinks with short-write/EINTR injection, relational oracle across sinks and bulk-vs-elementwise twins",
          "DESIGN.md section 4 C07", True),
@@ -30,7 +30,7 @@ CHECKS = {
          "deterministic simulation: simulated Input/Read endpoints with benign I/O nondeterminism, run-time composed real wrapper stacks, relational oracle against the slice baseline",
          "DESIGN.md section 4 C08", True),
  "C14": ("fault_enumeration",
-         "EOF is injected at EVERY strict cut point of every generated encoding up to 512 bytes (annotation-boundary +-16 and spread cuts for longer ones, incl. around multiples of 16 KiB), each delivered by slice, by a short-read reader and by an unknown-length input: decoding must fail. Streams of 2..20 frames of mixed subjects are decoded value by value from one benign source, optionally cut: frames before the cut are recovered at the right offsets, the cut frame fails. On arbitrary byte strings decode_all / decode_all_with_depth_limit(L) are checked equivalent to decode / decode_with_depth_limit(L) + nothing left, L in {0..4, u32::MAX}.",
+         "EOF is injected at EVERY strict cut point of every generated encoding up to 512 bytes (annotation-boundary +-16 and spread cuts for longer ones, incl. around multiples of 16 KiB), each delivered by slice, by a short-read reader and by an unknown-length input: decoding must fail. Streams of 2..20 frames of mixed subjects are decoded value by value from one benign source (or frame by frame through decode_from_bytes), optionally cut: frames before the cut are recovered at the right offsets, the cut frame fails. On arbitrary byte strings decode_all / decode_all_with_depth_limit(L) are checked equivalent to decode / decode_with_depth_limit(L) + nothing left, L in {0..4, u32::MAX}.",
          "Complete over cut points for encodings <= 512 bytes of the generated values; values and streams are sampled.",
          "deterministic simulation: EOF fault enumeration over every cut point (torn write / closed connection) and stream framing over simulated sources",
          "DESIGN.md section 4 C14", True),
@@ -40,27 +40,27 @@ CHECKS = {
          "deterministic simulation: twin-source differential run of skip vs decode under identical seam schedules",
          "DESIGN.md section 4 C18", True),
  "C19": ("fault_enumeration",
-         "CountedInput is placed at every position of drawn wrapper stacks over simulated bases with injected error faults (read error at call k with or without partial consumption, EOF at byte k, I/O error at call k); a recording tap directly above the base notes what was really delivered; after every decode, successful or failed, count() must equal the delivered bytes, and after a fault-free success the bytes taken from the base.",
+         "CountedInput is placed at every position of drawn wrapper stacks over simulated bases with injected error faults (read error at call k with or without partial consumption, EOF at byte k, I/O error at call k); a recording tap directly above the base notes what was really delivered; after every decode, successful or failed (a third of the cases: two decodes through the same counter), count() must equal the delivered bytes, for a plain slice also the slice's consumed length, and after a fault-free success the bytes taken from the base.",
          "Fault positions are sampled (k drawn), not enumerated completely; saturation at 2^64 is unreachable by execution and left to the existing synthetic unit test (stated gap).",
          "deterministic simulation: error-fault injection at the Input/Read seam with a recording tap as ground truth for delivered bytes",
          "DESIGN.md section 4 C19", True),
  "C06": ("exploration",
-         "History simulation (no fault dimension; said so): a container (VecDeque over 7 element types, Vec, String, BTreeMap+BTreeSet, LinkedList, BitVec over u8/u16/u32/u64 x Lsb0/Msb0) is driven through 1..60 seeded operations mirrored on a naive model; after EVERY operation encode(), encode_to(custom Output), using_encoded and encoded_size must equal those of the same logical content rebuilt in the simplest way (exact-capacity Vec, from_iter of the sorted model, bit vector pushed from offset 0), twice in a row; holders (&T, &&T, &mut T, Box, Rc with extra refs, Arc with a weak ref, Cow borrowed/owned) and, for bit sequences, every sub-slice offset 0..=70 x 14 lengths as BitSlice / to_bitvec / from_bitslice / BitBox are compared at the end; probes count wrapped ring-buffer states, short wrapped runs, spare-capacity states and owned bit vectors with a head offset.",
+         "History simulation (no fault dimension; said so): a container (VecDeque over 7 element types, Vec, String, BTreeMap+BTreeSet, LinkedList, BitVec over u8/u16/u32/u64 x Lsb0/Msb0) is driven through 1..60 seeded operations mirrored on a naive model; after EVERY operation encode(), encode_to(custom Output), using_encoded and encoded_size must equal those of the same logical content rebuilt in the simplest way (exact-capacity Vec, from_iter of the sorted model, bit vector pushed from offset 0), twice in a row; holders (&T, &&T, &mut T, Box, Rc with extra refs, Arc with a weak ref, Cow borrowed/owned) and, for bit sequences, every sub-slice offset 0..=70 x 14 lengths as BitSlice / to_bitvec / from_bitslice / BitBox are compared at the end; sequences whose elements are holders, BitBox obtained by move / after repeat+truncate; probes count wrapped ring-buffer states, short wrapped runs, spare-capacity states and owned bit vectors with a head offset. A second scenario (reencode) decodes valid and damaged byte strings and requires the decoded value to encode like the same logical value rebuilt from scratch.",
          "Relational oracle inside the library (same encoder on both sides): a symmetric wire-format change is invisible here (C03/C15 start from the independent model). BinaryHeap excluded (iteration order legitimately depends on history).",
          "deterministic simulation: seeded operation histories against a reference model (op-by-op lock-step), invariant checked after every step",
          "DESIGN.md section 4 C06", True),
  "C09": ("fault_enumeration",
-         "Count tampering is enumerated: every count-prefix position of 3 (quick) / 12 (thorough) honest values of every subject that contains a sequence/map/set/list/heap/deque/string/bit-sequence/byte-buffer x 10 claimed counts up to 2^32-1 x 6 payload sizes up to 64 KiB x 4 sources (slice, unknown-length Input, IoReader over a short-read reader, shared Bytes buffer); a global-allocator accounting window around each decode call records the peak of requested live bytes; oracles: peak must not grow with the claimed count (N >= 2^20), peak <= 64*input_len + (depth+1)*1 MiB + fixed(T), no allocation-cap abort (supervisor). Plus 400k/60M seeded damaged/random strings under the same accounting.",
+         "Count tampering is enumerated: every count-prefix position of 3 (quick) / 12 (thorough) honest values of every subject that contains a sequence/map/set/list/heap/deque/string/bit-sequence/byte-buffer x 10 claimed counts up to 2^32-1 x 6 payload sizes up to 64 KiB x 4 sources (slice, unknown-length Input, IoReader over a short-read reader, shared Bytes buffer); a global-allocator accounting window around each decode call records the peak of requested live bytes; oracles: peak must not grow with the claimed count (N >= 2^20), a claim the input cannot back must not cost more than the largest claims do, peak <= 64*input_len + (depth+1)*1 MiB + fixed(T), no allocation-cap abort (supervisor). Plus 400k/60M seeded damaged/random strings under the same accounting.",
          "Bound constants are deliberately generous (1 MiB per level instead of the 16 KiB the code uses) so that retuning MAX_PREALLOCATION does not alarm; honest encodings calibrate the bound (a failure there is a harness error). Collections whose elements encode to zero bytes but allocate are KNOWN-FINDINGs (one supervised case each).",
          "deterministic simulation: count-tamper fault enumeration on the wire + allocator seam (accounting global allocator with hard cap) + supervised workers",
          "DESIGN.md section 4 C09", True),
  "C10": ("fault_enumeration",
-         "For 52 container shapes around an instrumented element type (arrays, Box/Rc/Arc, Vec/VecDeque/BinaryHeap/LinkedList/BTreeSet/BTreeMap, Option/Result/tuples, derived struct/enum, four repr(transparent) shapes incl. multi-field with a fallible zero-sized field, two-deep nestings) x N in {0,1,2,3,8,40} (and 1100/2100 to cross the 16 KiB chunk window) x 3 bases, EVERY fault position of EVERY kind is enumerated after a dry run counted the calls: element decoder Err / panic at each element, malformed zero-sized field, truncation at each byte, read error at each read call (with/without partial consumption), I/O error and panic in each Read::read call, descend_ref / on_before_alloc_mem error at each call, panic inside the input at each call, binding depth and mem limits, also under non-binding wrapper layers. Oracles: construction/drop ledger (constructed == dropped, nothing twice, nothing alive after a failed call, everything alive after success) and allocator (net bytes requested during call + drop == 0).",
-         "Big instances (N > 100) sample positions (every 61st, around chunk multiples, ends). Use-after-free / invalid assume_init that does not show as a leak, double drop or crash would need a sanitizer (not run by these commands; see DESIGN.md section 8).",
+         "For ~100 container shapes around instrumented element types (heap-holding Tr, fallible zero-sized Zf, droppable zero-sized Zd; GenericArray; three-field transparent structs) (arrays, Box/Rc/Arc, Vec/VecDeque/BinaryHeap/LinkedList/BTreeSet/BTreeMap, Option/Result/tuples, derived struct/enum, four repr(transparent) shapes incl. multi-field with a fallible zero-sized field, two-deep nestings) x N in {0,1,2,3,8,40} (and 1100/2100 to cross the 16 KiB chunk window) x 3 bases, EVERY fault position of EVERY kind is enumerated after a dry run counted the calls: element decoder Err / panic at each element, malformed zero-sized field, truncation at each byte, read error at each read call (with/without partial consumption), I/O error and panic in each Read::read call, descend_ref / on_before_alloc_mem error at each call, panic inside the input at each call, binding depth and mem limits, also under non-binding wrapper layers. Oracles: construction/drop ledger (constructed == dropped, nothing twice, nothing alive after a failed call, everything alive after success) and allocator (net bytes requested during call + drop == 0).",
+         "Big instances (N > 100) sample positions (every 61st, around chunk multiples, ends). The thorough command additionally interprets the scenario (instances with N <= 8, every 7th case) under Miri (Stacked Borrows, leaks, invalid assume_init); the quick command does not.",
          "deterministic simulation: exhaustive fault-position enumeration per case at the element-decoder, Input and wrapper seams, with ledger + allocator oracles",
          "DESIGN.md section 4 C10", True),
  "C11": ("fault_enumeration",
-         "Every limit L in 0..=D_hi+2 is enumerated for seeded values (wide-but-shallow and up to 14 levels deep, honest and damaged encodings) of every subject with heap containers, through the depth wrapper over a drawn source stack, through decode_with_depth_limit on the slice and through decode_all_with_depth_limit: result(L) in {unlimited result, Err}, monotone in L, equal for L >= D_hi (every heap container on the deepest path), Err for L < D_lo (containers recursed through), consume-all rejects trailing bytes. Stack safety: Tree/Chain/Vec<Tree> inputs nested 10^3..10^6 levels (boxes, vectors, maps, lists, shared pointers, mixed) decoded with limits {0,1,16,100,256} on a 1 MiB stack through three sources must return Err and the process must survive.",
+         "Every limit L in 0..=D_hi+2 is enumerated for seeded values (wide-but-shallow and up to 14 levels deep, honest and damaged encodings) of every subject with heap containers, through the depth wrapper over a drawn source stack (optionally with a binding memory tracker underneath), at limits beyond i32::MAX, through decode_with_depth_limit on the slice and through decode_all_with_depth_limit: result(L) in {unlimited result, Err}, monotone in L, equal for L >= D_hi (every heap container on the deepest path), Err for L < D_lo (containers recursed through), consume-all rejects trailing bytes. Stack safety: Tree/Chain/Vec<Tree> inputs nested 10^3..10^6 levels (boxes, vectors, maps, lists, shared pointers, mixed) decoded with limits {0,1,16,100,256} on a 1 MiB stack through three sources must return Err and the process must survive.",
          "Between D_lo and D_hi only transparency and monotonicity are asserted, so that a refactor that stops descending for leaf containers does not alarm.",
          "deterministic simulation: limit enumeration = fault enumeration at the descend_ref seam; small-stack thread + supervisor for stack exhaustion",
          "DESIGN.md section 4 C11", True),
@@ -70,17 +70,17 @@ CHECKS = {
          "deterministic simulation: limit enumeration = fault enumeration at the on_before_alloc_mem seam, over composed real wrapper stacks",
          "DESIGN.md section 4 C12", True),
  "C15": ("exploration",
-         "Seeded histories of 1..12 append_or_new calls on a stored blob mirrored by a reference model (count + deterministic items; expected blob = compact(count) ++ reference encodings): six item types incl. zero-sized, Vec and VecDeque targets, five item forms, starts on/around 63|64, 2^14 and (unit items) 2^30, batches that reach / cross the next prefix-width boundary, twelve dedicated histories around 2^32 (exactly u32::MAX, one beyond, batch lengths >= 2^32), blobs with damaged count prefixes; Err exactly when the total exceeds u32::MAX or the prefix is not a valid Compact<u32>.",
+         "Seeded histories of 1..12 append_or_new calls on a stored blob mirrored by a reference model (count + deterministic items; expected blob = compact(count) ++ reference encodings): eight item types incl. zero-sized ones with and without a wire encoding, Vec and VecDeque targets, five item forms, starts on/around 63|64, 2^14 and (unit items) 2^30, batches that reach / cross the next prefix-width boundary, twelve dedicated histories around 2^32 (exactly u32::MAX, one beyond, batch lengths >= 2^32), blobs with damaged count prefixes; Err exactly when the total exceeds u32::MAX or the prefix is not a valid Compact<u32>.",
          "Counts above ~7*10^4 only for zero-sized items. Found and repaired on this tree: items_to_append truncated to u32 (fix: commit, KNOWN_FINDINGS fixed: line).",
          "deterministic simulation: seeded operation histories on stored state against a reference model, storage faults on the count prefix",
          "DESIGN.md section 4 C15", True),
  "C20": ("exploration",
-         "A probe crate is built once per feature configuration of the codec (std+chain-error / no default features / no_std+chain-error x optional features none|all in quick, plus each single and each all-but-one in thorough = 6 / 36 builds) against /repo's working tree; every build runs the same seeded corpus (values through encode() and a custom Output, decode of own / damaged / random bytes from a slice and a custom unknown-length Input) and prints per-family digests over (bytes, accept/reject, consumed, re-encoded value), error text excluded; digests must be identical in all configurations in which a family exists; a byte-buffer family compares Bytes via decode_from_bytes (integration on) with Vec<u8> (integration off).",
+         "A probe crate is built once per feature configuration of the codec (std+chain-error / no default features / no_std+chain-error x optional features none|all in quick, plus each single and each all-but-one in thorough = 6 / 36 builds) against /repo's working tree; every build runs the same seeded corpus (values through encode() and a custom Output, decode of own / damaged / random bytes from a slice and a custom unknown-length Input) and prints per-family digests over (bytes, accept/reject, consumed, re-encoded value), error text excluded; digests must be identical in all configurations in which a family exists; further families: byte buffers (Bytes via decode_from_bytes vs Vec<u8>), append_or_new histories, maps/sets keyed by a type whose Ord ignores part of its encoding; the line of an item also records where the input stands after a failed decode.",
          "The probe binary always links std; io::Write sinks / IoReader exist only with std (covered by C07/C08).",
          "deterministic simulation over the configuration seam: one build per cargo feature set, same seeded corpus, digest comparison",
          "DESIGN.md section 4 C20", True),
  "C02": ("exploration",
-         "Seeded search over wire simulations: streams of 1..6 encoded messages of ~190 concrete subject types (values biased to lengths around multiples of the 16 KiB decode window) + suffix, decoded in order from one simulated source stack (short reads, EINTR, unknown remaining length, defaulted read_byte, shared-buffer input, non-binding wrapper layers); oracle: decode Ok, value equals the model value, bytes taken from the base equal the bytes produced after every message, suffix untouched. Sampling, not proof.",
+         "Seeded search over wire simulations: streams of 1..6 encoded messages of ~380 concrete subject types (values biased to lengths around multiples of the 16 KiB decode window) + suffix, decoded in order from one simulated source stack (short reads, EINTR, unknown remaining length, defaulted read_byte, shared-buffer input, non-binding wrapper layers); oracle: decode Ok, value equals the model value, bytes taken from the base equal the bytes produced after every message, suffix untouched. Sampling, not proof.",
          "Trusted: the model<->type bridges (Modelled impls), SimRead/SimInput/SimWrite seam implementations, rustc. Type universe = fixed catalogue.",
          "deterministic simulation: seeded wire/stream simulation with benign I/O fault injection (short reads/writes, EINTR, unknown length), position oracle per message",
          "DESIGN.md section 4 C02", True),
